@@ -99,8 +99,25 @@ Definition climb_f := climb_shape c_climb_restart.
 Definition climber_new (cap : Z) : climber :=
   mkCl cap (B754_zero false) (f32_mul (f32_neg (f32_of_Z cap)) k_percent).
 
+(* ---- the constructors: NewTinyLfu gives the window uint(float32(size) * 0.01), at least 1; NewSlru gives the protected
+   region uint(float32(mainSize) * 0.8) with mainSize = size - window (a uint subtraction).  The two fractions are scraped
+   from the source.  uint(x) of a float32 truncates; outside [0, 2^63) the model answers 2^63 (never reached below 2^61). *)
+Definition f32_to_uint (x : f32) : Z :=
+  match x with
+  | B754_finite _ _ _ _ | B754_zero _ =>
+      let z := Btrunc x in if (0 <=? z) && (z <? two63c) then z else two63c
+  | _ => two63c
+  end.
+Definition k_window : f32 := f32_div (f32_of_Z (fst c_init_window_fraction)) (f32_of_Z (snd c_init_window_fraction)).
+Definition k_protected : f32 := f32_div (f32_of_Z (fst c_init_protected_fraction)) (f32_of_Z (snd c_init_protected_fraction)).
+Definition init_window (size : Z) : Z :=
+  let w := f32_to_uint (f32_mul (f32_of_Z size) k_window) in if w <? 1 then 1 else w.
+Definition init_main (size : Z) : Z := (size - init_window size) mod 18446744073709551616.
+Definition init_protected (size : Z) : Z := f32_to_uint (f32_mul (f32_of_Z (init_main size)) k_protected).
+
 (* ---- integer interface for the replay.  cfg: capacity.
-   [1; hits; misses] climb -> amount, bits of hr, bits of step      [2; hrbits; stepbits] overwrite the state -> bits *)
+   [1; hits; misses] climb -> amount, bits of hr, bits of step      [2; hrbits; stepbits] overwrite the state -> bits
+   [3] the constructor's capacities for this capacity -> window, main, protected *)
 Definition clb_init (cfg : list Z) : climber :=
   match cfg with cap :: _ => climber_new cap | _ => climber_new 1 end.
 Definition clb_step (c : climber) (op : list Z) : climber * list Z :=
@@ -110,5 +127,6 @@ Definition clb_step (c : climber) (op : list Z) : climber * list Z :=
   | [2; hb; sb] =>
       let c' := mkCl (cl_cap c) (f32_of_bits hb) (f32_of_bits sb) in
       (c', [f32_bits (cl_hr c'); f32_bits (cl_step c')])
+  | [3] => (c, [init_window (cl_cap c); init_main (cl_cap c); init_protected (cl_cap c)])
   | _ => (c, [-999])
   end.
